@@ -5,8 +5,9 @@ from __future__ import annotations
 import ast
 
 from .. import astutil as A
-from .. import q
+from .. import exprs, q
 from ..idioms import cname, where
+from ..loader import AnalysisError
 
 PT = "bluesky.plan_patterns"
 
@@ -19,13 +20,93 @@ def guard_of(f):
     return None
 
 
+SYMS = ["x", "y", "dr_aspect", "tilt_tan", "x_range", "y_range"]
+# the documented acceptance region, as (inner expression, bound) per coordinate; x, y are the offsets from the centre
+REFERENCE = {
+    "x": ("x - (y / dr_aspect) / tilt_tan", "x_range / 2"),
+    "y": ("y", "y_range / 2"),
+}
+_NOT_VARS = ("abs", "np", "numpy", "math")
+
+
+def _local_defs(f, name):
+    return [s for s in A.walk_stmts(f.node.body) if isinstance(s, ast.Assign) and any(isinstance(t, ast.Name) and t.id == name for t in s.targets)]
+
+
+def d2_bound_is_the_rectangle(ctx, f, g, conj):
+    """Each conjunct `abs(E) <= B` of the guard is the SAME inequality as the documented one
+    |x - (y/aspect)/tan(tilt+pi/2)| <= x_range/2 resp. |y| <= y_range/2: E/B and the reference ratio are equal
+    as rational functions of (x, y, dr_aspect, tilt_tan, x_range, y_range) up to sign - decided by exact
+    evaluation at random rational points after substituting the function's own definitions of the
+    helper variables (half_x, half_y, ...)."""
+    rule = "C27.D2-bound-equals-requested-rectangle"
+    parsed = []
+    for c in conj:
+        if isinstance(c, ast.Compare) and len(c.ops) == 1 and isinstance(c.ops[0], (ast.LtE, ast.Lt)) and isinstance(c.left, ast.Call) and \
+                A.call_name(c.left) in exprs.ABS_NAMES and len(c.left.args) == 1:
+            parsed.append((c.left.args[0], c.comparators[0], c))
+        else:
+            ctx.ob(rule, cname(f, None, f"conjunct `{A.short(c, 60)}`"), False, "the bound test is not of the form abs(offset) <= half-range", where=where(f, g))
+
+    def env_for(pt):
+        env = dict(pt)
+
+        def resolve(name, depth=0):
+            if name in env:
+                return
+            defs = _local_defs(f, name)
+            if len(defs) != 1 or depth > 4:
+                raise AnalysisError(f"{f.key}: `{name}` used in the bound test has {len(defs)} definitions; cannot substitute")
+            for n in ast.walk(defs[0].value):
+                if isinstance(n, ast.Name) and n.id not in _NOT_VARS:
+                    resolve(n.id, depth + 1)
+            env[name] = exprs.feval(defs[0].value, env)
+
+        for e, b, _ in parsed:
+            for part in (e, b):
+                for n in ast.walk(part):
+                    if isinstance(n, ast.Name) and n.id not in _NOT_VARS:
+                        resolve(n.id)
+        return env
+
+    pts = list(exprs.random_points(SYMS, 8, signed=("x", "y", "tilt_tan")))
+    matched = {}
+    for e, b, c in parsed:
+        which = None
+        for coord, (re_, rb_) in REFERENCE.items():
+            ref_e, ref_b = ast.parse(re_, mode="eval").body, ast.parse(rb_, mode="eval").body
+            same = True
+            for pt in pts:
+                env = env_for(pt)
+                got = abs(exprs.feval(e, env) / exprs.feval(b, env))
+                want = abs(exprs.feval(ref_e, env) / exprs.feval(ref_b, env))
+                if got != want:
+                    same = False
+                    break
+            if same:
+                which = coord
+        if which:
+            matched[which] = c
+        else:
+            ctx.ob(rule, cname(f, None, f"conjunct `{A.short(c, 70)}`"), False,
+                   "after substituting the function's own helper definitions this is neither |x - (y/dr_aspect)/tilt_tan| <= x_range/2 nor "
+                   "|y| <= y_range/2: points outside the requested rectangle are accepted (or points inside it dropped)",
+                   nontrivial=True, witness=[f"{k} = {v}" for k, v in pts[0].items()], where=where(f, g))
+    for coord in ("x", "y"):
+        ok = coord in matched
+        ctx.ob(rule, cname(f, None, f"{coord}: |{REFERENCE[coord][0]}| <= {REFERENCE[coord][1]}"), ok,
+               "" if ok else f"no conjunct of the guard is the documented {coord} bound", nontrivial=True, where=where(f, g))
+
+
 def run(ctx):
     repo = ctx.repo
     ctx.explanation = (
         "Decided: D1 in spiral and spiral_fermat every point appended to the trajectory is appended under a bound test on both "
-        "coordinates, x and y are appended together under the same guard, and nothing is appended outside it; D2 the two sibling "
-        "guards agree after normalisation (both test |x - tilt term| <= half_x and |y / dr_aspect| <= half_y with the same definitions "
-        "of half_x / half_y). Not decided: the arithmetic of the bound itself, spiral_square_pattern covering the grid exactly once.")
+        "coordinates, x and y are appended together under the same guard, and nothing is appended outside it; D2 each conjunct of "
+        "both guards, after substituting the function's own helper definitions (half_x, half_y), is the same inequality as the documented "
+        "region |x - (y/dr_aspect)/tan(tilt+pi/2)| <= x_range/2, |y| <= y_range/2 - an identity of rational functions decided exactly at random "
+        "rational points (no repo code runs). Not decided: that the generated (x, y) spiral itself is the documented curve; "
+        "spiral_square_pattern covering the grid exactly once.")
     guards = {}
     for name in ("spiral", "spiral_fermat"):
         f = repo.func(PT, name)
@@ -50,16 +131,7 @@ def run(ctx):
         ys = [A.norm(s.value.args[0]) for s in inside if "y_points" in A.norm(s)]
         ok = xs == ["x_start + x"] and ys == ["y_start + y"]
         ctx.ob("C27.D1-append-under-bound-test", cname(f, None, "the tested offsets are the ones added to the centre"), ok, "" if ok else f"appends {xs} {ys}", where=where(f, g))
-        txt = A.norm(f.node)
-        ok = "half_x = x_range / 2" in txt and "half_y = y_range / (2 * dr_aspect)" in txt
-        ctx.ob("C27.D2-sibling-guards-agree", cname(f, None, "half_x = x_range / 2 ; half_y = y_range / (2 * dr_aspect)"), ok, "" if ok else "half-range definitions changed", where=where(f, f.node))
-        ok = "y = radius * np.sin(angle) * dr_aspect" in txt and "x = radius * np.cos(angle)" in txt
-        ctx.ob("C27.D2-sibling-guards-agree", cname(f, None, "x, y offsets: y is scaled by dr_aspect"), ok, "" if ok else "offset definitions changed", where=where(f, f.node))
-    if len(guards) == 2:
-        a, b = A.norm(guards["spiral"].test), A.norm(guards["spiral_fermat"].test)
-        ctx.ob("C27.D2-sibling-guards-agree", f"{PT}:spiral vs spiral_fermat bound tests", a == b,
-               "" if a == b else f"spiral tests `{a}` but spiral_fermat tests `{b}`: with the same half_y definition one of them admits points outside the rectangle",
-               nontrivial=True, where=where(repo.func(PT, "spiral_fermat"), guards["spiral_fermat"]))
+        d2_bound_is_the_rectangle(ctx, f, g, conj)
     # square spiral: every append guarded by the 'not all points found' counter and a range test
     f = repo.func(PT, "spiral_square_pattern")
     appends = [s for s in A.walk_stmts(f.node.body) if isinstance(s, ast.Expr) and "x_points.append" in A.norm(s)]
@@ -80,9 +152,10 @@ def run(ctx):
 
 CLAIM = {
     "text": "Decides that spiral and spiral_fermat append a point only under a conjunction of bound tests on both coordinates, with x and y "
-            "appended together, and that the two sibling bound tests are identical given identical half-range definitions (the disagreement "
-            "fixed in /repo as F-13 would be reported again). The arithmetic of the bound and square-spiral coverage are not decided.",
-    "technique": "guard dominance of the appends; sibling (clone) agreement of the two spiral guards",
+            "appended together, and that each bound test is algebraically the documented rectangle test (|x - (y/aspect)/tan(tilt+pi/2)| <= x_range/2, "
+            "|y| <= y_range/2) once the function's own half-range definitions are substituted; the disagreement fixed in /repo as F-13 would be "
+            "reported again. The spiral curve itself and square-spiral coverage are not decided.",
+    "technique": "guard dominance of the appends; exact rational-function identity test of the guard against the documented region (expression ASTs evaluated over Fractions)",
 }
 
 T = "plan_patterns.py"
@@ -94,4 +167,16 @@ MUTANTS = [
     ("bound test uses or", [(T, "            if (abs(x - (y / dr_aspect) / tilt_tan) <= half_x) and (abs(y / dr_aspect) <= half_y):\n                x_points.append(x_start + x)", "            if (abs(x - (y / dr_aspect) / tilt_tan) <= half_x) or (abs(y / dr_aspect) <= half_y):\n                x_points.append(x_start + x)")], "C27.D1"),
     ("fermat half_y without the aspect", [(T, "    half_x = x_range / 2\n    half_y = y_range / (2 * dr_aspect)\n    tilt_tan = np.tan(tilt + np.pi / 2.0)\n\n    x_points, y_points = [], []\n\n    diag", "    half_x = x_range / 2\n    half_y = y_range / 2\n    tilt_tan = np.tan(tilt + np.pi / 2.0)\n\n    x_points, y_points = [], []\n\n    diag")], "C27.D2"),
 ]
-BENIGN = []
+MUTANTS += [
+    ("tilt shear loses the aspect in both spirals (seed C27-a)", [
+        (T, "            if (abs(x - (y / dr_aspect) / tilt_tan) <= half_x) and (abs(y / dr_aspect) <= half_y):", "            if (abs(x - y / tilt_tan) <= half_x) and (abs(y / dr_aspect) <= half_y):"),
+        (T, "        if (abs(x - (y / dr_aspect) / tilt_tan) <= half_x) and (abs(y / dr_aspect) <= half_y):", "        if (abs(x - y / tilt_tan) <= half_x) and (abs(y / dr_aspect) <= half_y):")], "C27.D2"),
+    ("x bound against the full range", [(T, "    half_x = x_range / 2\n    half_y = y_range / (2 * dr_aspect)\n    tilt_tan = np.tan(tilt + np.pi / 2.0)\n\n    x_points, y_points = [], []\n\n    diag", "    half_x = x_range\n    half_y = y_range / (2 * dr_aspect)\n    tilt_tan = np.tan(tilt + np.pi / 2.0)\n\n    x_points, y_points = [], []\n\n    diag")], "C27.D2"),
+]
+BENIGN = [
+    ("fermat y bound rewritten in the unscaled frame (same inequality)", [
+        (T, "    half_y = y_range / (2 * dr_aspect)\n    tilt_tan = np.tan(tilt + np.pi / 2.0)\n\n    x_points, y_points = [], []\n\n    diag = np.sqrt(half_x**2 + half_y**2)", "    half_y = y_range / 2\n    tilt_tan = np.tan(tilt + np.pi / 2.0)\n\n    x_points, y_points = [], []\n\n    diag = np.sqrt(half_x**2 + (half_y / dr_aspect) ** 2)"),
+        (T, "\n        if (abs(x - (y / dr_aspect) / tilt_tan) <= half_x) and (abs(y / dr_aspect) <= half_y):", "\n        if (abs(x - (y / dr_aspect) / tilt_tan) <= half_x) and (abs(y) <= half_y):")]),
+    ("spiral guard with the conjuncts swapped and np.abs", [
+        (T, "            if (abs(x - (y / dr_aspect) / tilt_tan) <= half_x) and (abs(y / dr_aspect) <= half_y):", "            if (np.abs(y / dr_aspect) <= half_y) and (np.abs(x - y / (dr_aspect * tilt_tan)) <= half_x):")]),
+]
